@@ -444,6 +444,12 @@ func (fr *frame) execUnOp(x *ssa.UnOp, st *State, reach string) {
 	v := fr.valOf(x.X)
 	switch x.Op {
 	case token.MUL: // load
+		if g, isG := x.X.(*ssa.Global); isG && !(fr.fn.Synthetic != "" && fr.fn.Name() == "init") {
+			if c, ok := u.eng.constScalar(g); ok {
+				fr.vals[x] = fr.constVal(c)
+				return
+			}
+		}
 		if g, isG := x.X.(*ssa.Global); isG && !fr.pure && !(fr.fn.Synthetic != "" && fr.fn.Name() == "init") {
 			if elems, ok := u.eng.constTable(g); ok {
 				fr.vals[x] = fr.loadConstTable(g, elems, st)
